@@ -55,7 +55,8 @@ def gen(rng, tier, spec):
         for _ in range(rng.range(1, 3)):
             if role == 'w' or (role == 'm' and rng.chance(1, 2)):
                 if nmod < 7:
-                    p.append([MODIFY, fids[nmod]])
+                    # a third of the modifies pass a value-category aware rvalue functor (flag 1)
+                    p.append([MODIFY, fids[nmod], 1] if rng.chance(1, 3) else [MODIFY, fids[nmod]])
                     nmod += 1
             else:
                 p += _reader_session(rng, ns)
@@ -121,7 +122,7 @@ def gen_small(rng, spec):
     elif shape == 2:
         progs = [[[MODIFY, f]], [[MODIFY, g]], [[lock, 0], [READ, 0], [RELEASE, 0]]]
     elif shape == 3:
-        progs = [[[MODIFY, f], [MODIFY, g]], [[lock, 0], [READ, 0], [RELEASE, 0]]]
+        progs = [[[MODIFY, f, 1], [MODIFY, g]], [[lock, 0], [READ, 0], [RELEASE, 0]]]
     else:
         progs = [[[MODIFY, f]], [[lock, 0], [LOCK, 1], [READ, 0], [READ, 1], [RELEASE, 0], [RELEASE, 1]]]
     nmod = sum(1 for p in progs for o in p if o[0] == MODIFY)
@@ -317,6 +318,13 @@ def mon_serial(case, lines):
     eff = []
     for i, t, k, o, v in _events(lines):
         cur = ops.cur.get(t)
+        if cur and cur['code'] == MODIFY and k == K['LOCK']:
+            cur['base'] = list(eff)
+        if cur and cur['code'] == MODIFY and k == K['WR_END'] and 'base' in cur:
+            if v not in (_enc(cur['base']), _enc(cur['base'] + [cur['arg']])):
+                return ('modify(%d) of thread %d wrote %o to a copy (line %d); the state it found is %o, so only %o or %o '
+                        'are possible: the two copies had diverged' % (cur['arg'], t, v, i, _enc(cur['base']), _enc(cur['base']),
+                                                                       _enc(cur['base'] + [cur['arg']])))
         if cur and cur['code'] == MODIFY and k == K['STORE'] and not cur.get('flipped'):
             cur['flipped'] = True
             eff.append(cur['arg'])
